@@ -13,11 +13,12 @@ A source is an additive term (`jE`, `jH` of `Yee.forward`); `static_amplitude_fa
 (tfsf.py `_tfsf_inject_*`: `get_amplitude(...) * static_amplitude_factor`; dipole.py: `scale = c * amplitude *
 static_amplitude_factor * ...`) — checked on the real sources by the correspondence harness.
 
-Driver ops: those of `YeeIO` plus  `denergy r <request>` → N values, `poynting r <request>` → 3N values
+Driver ops: those of `YeeIO`, of `Cpml.handleCpml` (`pmlfwd`, …) and `afwd` of `YeeAnisoIO` (through `C10Ext.handleExt`), plus  `denergy r <request>` → N values, `poynting r <request>` → 3N values
 (the request's E, H, invEps, invMu; everything else in the request is ignored), and
 `cpml a b inv_kappa psi d sim kappaOne` → `corr psi_new` (one cell of `step_cpml`).
 -/
 import FdtdxModel.YeeIO
+import FdtdxModel.C10Ext
 namespace Fdtdx.C10
 open Fdtdx.Yee
 
@@ -93,6 +94,10 @@ def handle : List String → String
   | "cpml" :: rest => cpmlOp rest
   | "denergy" :: "r" :: rest => recordOp "denergy" rest
   | "poynting" :: "r" :: rest => recordOp "poynting" rest
-  | toks => YeeIO.handleYee toks
+  | toks =>
+    -- `pmlfwd` … of the CPML model and `afwd` of the any-tier model (see C10Ext.handleExt), else the plain Yee ops
+    match handleExt toks with
+    | "bad-op" => YeeIO.handleYee toks
+    | r => r
 
 end Fdtdx.C10
